@@ -1,5 +1,46 @@
-from .. import AnalysisBroken
+"""C07 - Hamming mode returns exactly the equal-length pairs within max_edits mismatches."""
+from ._nn import check_buckets, check_hamming_replacement, run_fga
+
+CLAIMED = True
+LEVEL = "other"
+TECHNIQUE = "filter-guard acceptance analysis of all engines under custom_distance='hamming'; decision table of the Hamming wrapper; index-space typing of the per-length kd-tree search (positions mapped back to the caller's space)"
+TEXT = ("Decides for every engine, with custom_distance folded to 'hamming', that a pair is kept iff its Hamming value is <= max_edits and lengths are equal: "
+        "_hamming_replacement is +inf on unequal lengths and the rapidfuzz Hamming distance otherwise; symdel / SymdelDB apply it to the elements at the "
+        "reported positions with threshold max_edits; hash_based probes the substitution-only ball; in kdtree the raw Hamming scorer is applied only "
+        "inside one length class, classes partition the input by len(seq), each class is searched on ensure_numpy(seqs)[indices] and every local triplet "
+        "(i, j, d) is mapped to (indices[i], indices[j], d), so reported positions are typed in the caller's index space for every mixture of lengths. "
+        "Grade B (rapidfuzz Hamming and the substitution ball lemma trusted).")
+NOTE = "Trusted: rapidfuzz Hamming.distance on equal-length strings; DESIGN Appendix A.4 for the substitution ball; numpy fancy indexing seqs[indices] keeps order."
 
 
 def run(r):
-    raise AnalysisBroken("rule set for C07 not implemented yet (fail-closed stub)")
+    rep = r.rep
+    rep.explanation = "All insertion sites were analysed with custom_distance folded to 'hamming' (finite and infinite max_custom_distance); the per-length bucket search of kdtree was typed."
+    rep.trust("rapidfuzz.distance.Hamming.distance counts mismatching positions of equal-length strings", "numpy: a[L] for a list of positions L has a[L][k] == a[L[k]]",
+              "DESIGN Appendix A.4 (substitution ball) and A.5 (lemma table)")
+    check_hamming_replacement(r, "C07-HR")
+    check_buckets(r, "C07")
+    run_fga(r, "C07", {"hamming"}, floor=10)
+    rep.floor("C07-HR", 1)
+    rep.floor("C07-IST", 5)
+    rep.floor("C07-BKT", 2)
+
+
+from ..selftest import V  # noqa: E402
+
+N = "pyrepseq/nn.py"
+VARIANTS = [
+    V("D2-buckets-hold-sequences", N, "    for index, seq in enumerate(seqs):\n        _len = len(seq)\n        if _len not in ans:\n            ans[_len] = []\n        ans[_len].append(index)",
+      "    for seq in seqs:\n        _len = len(seq)\n        if _len not in ans:\n            ans[_len] = []\n        ans[_len].append(seq)", rule="C07",
+      edits=(("pyrepseq/nn.py", "            bucket_triplets = _kdtree_leven(\n                seqs_array[indices],", "            bucket_triplets = _kdtree_leven(\n                indices,"),
+             ("pyrepseq/nn.py", "            ans += [(indices[i], indices[j], dist) for i, j, dist in bucket_triplets]", "            ans += bucket_triplets"))),
+    V("remap-dropped", N, "            ans += [(indices[i], indices[j], dist) for i, j, dist in bucket_triplets]", "            ans += bucket_triplets", rule="C07-IST"),
+    V("remap-one-side", N, "            ans += [(indices[i], indices[j], dist) for i, j, dist in bucket_triplets]", "            ans += [(indices[i], j, dist) for i, j, dist in bucket_triplets]", rule="C07-IST"),
+    V("hamming-replacement-finite", N, "    if len(seq_a) != len(seq_b):\n        return np.inf", "    if len(seq_a) != len(seq_b):\n        return max(len(seq_a), len(seq_b))", rule="C07-HR"),
+    V("bucket-key-first-letter", N, "    for index, seq in enumerate(seqs):\n        _len = len(seq)", "    for index, seq in enumerate(seqs):\n        _len = len(seq) // 2", rule="C07-BKT"),
+    V("symdel-raw-hamming", N, "        if custom_distance == 'hamming':\n            custom_distance = _hamming_replacement\n        elif custom_distance is None:\n            custom_distance = levenshtein\n\n\n        for key", "        if custom_distance == 'hamming':\n            custom_distance = hamming\n        elif custom_distance is None:\n            custom_distance = levenshtein\n\n\n        for key", rule="C07-FGA"),
+    V("lookup-hamming-uses-lev-ball", N, "neighbors = _generate_neighbors(seq, max_edits, is_hamming)", "neighbors = _generate_neighbors(seq, max_edits, False)", rule="C07"),
+    V("D12-mcd-applied-in-hamming-mode", N, "if not is_custom or dist <= max_custom_distance:", "if dist <= max_custom_distance:", rule="C07-FGA"),
+    V("kdtree-hamming-scorer-lev", N, '    scorer = hamming if custom_distance == "hamming" else levenshtein', '    scorer = levenshtein if custom_distance == "hamming" else hamming', rule="C07-FGA"),
+    V("silent-setdefault-buckets", N, "        _len = len(seq)\n        if _len not in ans:\n            ans[_len] = []\n        ans[_len].append(index)", "        ans.setdefault(len(seq), []).append(index)", expect="silent"),
+]
